@@ -1,9 +1,264 @@
+import CoupeModel.Model.Ckk
+import CoupeModel.Model.Greedy
+import CoupeModel.Model.Kk
+import CoupeModel.Model.GridRcb
+import CoupeModel.Model.Rcb
+import CoupeModel.Model.Random
 import CoupeModel.Driver.Util
+import CoupeModel.Driver.RcbF32
+import CoupeModel.Driver.C10
+import CoupeModel.Driver.C13
+
+/-!
+C01 driver: the *verdict* of each partitioner model on the op of the harness
+(`harness/src/props/c01.rs` documents the op syntax):
+
+* the model is actually run on the input, on an id array of the requested length
+  pre-filled with `usize::MAX`, and its output is checked here the way the
+  oracle checks the implementation's: `ok` iff it returned ids, one per
+  element, none of them `usize::MAX`, all below the number of parts;
+* `notfound` (Ckk), `rejected lenmismatch` / `rejected invalidorder` /
+  `rejected order-assert` for refused inputs, `panic <class>` / `hang` when the
+  model aborts;
+* `skip …` where the model declines: an algorithm whose model is not wired here
+  yet (`skip model-not-wired <algo>`), an input outside the usage contract
+  (`skip outside-contract`), a weight that is not an exact integer.
+
+The exact-id correspondences live in the checks of the properties that own
+the models (C03, C09–C13); here only the C01 observable is compared.
+`<Ts>` matters to `Grid::rcb` only (`rayon::current_num_threads()`): the Grid
+model is run once per pool size, the others once.
+-/
 
 namespace Coupe.Driver.C01
 open Coupe.Driver
 
-/-- (stub; not built yet) -/
-def handle (_toks : List String) : String := "bad-op"
+/-- `usize::MAX`, the pre-fill of the harness. -/
+def unwritten : Nat := 2 ^ 64 - 1
+
+def parseTs? (s : String) : Option (List Nat) := do
+  let l ← (s.splitOn ",").mapM parseNat?
+  if l.isEmpty || l.any (fun t => t == 0 || t > 64) then none else some l
+
+/-- An integer-valued `f64` (bit pattern) below 2^53 in magnitude, as an `Int`. -/
+def intOfF64Bits (b : Nat) : Option Int :=
+  let x := Float.ofBits (UInt64.ofNat b)
+  if x.isNaN || x.isInf then none
+  else if x.floor != x then none
+  else if x.abs ≥ 9007199254740992.0 then none
+  else some x.toInt64.toInt
+
+inductive Weights where
+  | ints (ws : List Int)
+  /-- some `f64` weight is not an exact integer: the integer models decline -/
+  | inexact
+
+/-- `n` weights of type `tag` (`i`: decimal `i64`; `f`: `f64` bit patterns). -/
+def takeWeights (tag : String) (n : Nat) (rest : List String) : Option (Weights × List String) :=
+  if tag == "i" then do
+    let (ws, rest) ← takeParsed parseInt? n rest
+    pure (.ints ws, rest)
+  else if tag == "f" then do
+    let (bs, rest) ← takeParsed parseHex? n rest
+    match bs.mapM intOfF64Bits with
+    | some ws => pure (.ints ws, rest)
+    | none => pure (.inexact, rest)
+  else none
+
+/-- Optional trailing `m=<len>`: the length of the id array when it differs from `n`. -/
+def takeM (n : Nat) (rest : List String) : Option Nat :=
+  match rest with
+  | [] => some n
+  | [t] => if t.startsWith "m=" then parseNat? (t.drop 2).toString else none
+  | _ => none
+
+/-- weights ≥ 0 with a positive total unless there is no element -/
+def weightsInContract (ws : List Int) : Bool :=
+  ws.all (fun w => 0 ≤ w) && (ws.isEmpty || ws.any (fun w => 0 < w))
+
+/-- The oracle's reading of an id array. -/
+def verdictOfIds (n parts : Nat) (ids : List Nat) : String :=
+  if ids.length ≠ n then "bad-ids length"
+  else if ids.any (· == unwritten) then "bad-ids unwritten"
+  else if ids.any (fun i => decide (parts ≤ i)) then "bad-ids out-of-range"
+  else "ok"
+
+/-- One verdict per pool size, merged the way the harness merges them. -/
+def combine (ts : List Nat) (f : Nat → String) : String :=
+  let vs := ts.map fun t => (t, f t)
+  match vs with
+  | [] => "bad-op"
+  | (_, v0) :: _ =>
+    match vs.find? (fun x => x.2.startsWith "skip") with
+    | some (_, v) => v
+    | none =>
+      if vs.all (fun x => x.2 == v0) then v0
+      else "mixed" ++ String.join (vs.map fun x => " " ++ toString x.1 ++ ":" ++ x.2)
+
+def fresh (m : Nat) : List Nat := List.replicate m unwritten
+
+/-! ## per algorithm -/
+
+/-- `rcb<D> <iter> <tol> <wt> <n> <coords…> <weights…> [m=]` -/
+def handleRcb (dim : Nat) (rest : List String) : String :=
+  match rest with
+  | iter :: tol :: tag :: n :: rest =>
+    match (do
+      let iter ← parseNat? iter
+      let tol ← parseHex? tol
+      let n ← parseNat? n
+      let (xs, rest) ← takeParsed parseHex? (n * dim) rest
+      let (ws, rest) ← takeWeights tag n rest
+      let m ← takeM n rest
+      pure (iter, tol, n, xs, ws, m)) with
+    | none => "bad-op"
+    | some (_, _, _, _, .inexact, _) => "skip non-integer-weight"
+    | some (iter, tol, n, xs, .ints ws, m) =>
+      if m ≠ n then "rejected lenmismatch"
+      else if !weightsInContract ws || iter > 40 then "skip outside-contract"
+      else
+        let pts64 := RcbF32.chunk dim n (xs.map RcbF32.f64OfBits)
+        if pts64.any (fun p => p.any (fun x => x.isNaN || x.isInf || x.toFloat32.isInf)) then
+          "skip outside-contract"
+        else
+          let pts := pts64.map (·.map Float.toFloat32)
+          let bb := RcbF32.bboxF64 dim pts64
+          match Coupe.Rcb.runBB (RcbF32.withinTol (RcbF32.f64OfBits tol)) ⟨dim, RcbF32.fuel⟩ iter pts ws m
+              bb.1 bb.2 with
+          | .ok ids =>
+            -- the model returns the written cells only (`[]` for no point)
+            if n = 0 then "ok" else verdictOfIds n (2 ^ iter) ids
+          | .lenMismatch => "err lenmismatch"
+          | .oob => "panic index out of bounds"
+          | .fuel => "hang"
+  | _ => "bad-op"
+
+/-- `greedy <parts> <wt> <n> <weights…> [m=]` -/
+def handleGreedy (rest : List String) : String :=
+  match rest with
+  | parts :: tag :: n :: rest =>
+    match (do
+      let parts ← parseNat? parts
+      let n ← parseNat? n
+      let (ws, rest) ← takeWeights tag n rest
+      let m ← takeM n rest
+      pure (parts, n, ws, m)) with
+    | none => "bad-op"
+    | some (_, _, .inexact, _) => "skip non-integer-weight"
+    | some (parts, n, .ints ws, m) =>
+      if m = n && (!weightsInContract ws || parts = 0) then "skip outside-contract"
+      else
+        match Coupe.Greedy.run (fresh m) ws parts with
+        | .ok ids => verdictOfIds n parts ids
+        | .lenMismatch => if m ≠ n then "rejected lenmismatch" else "err lenmismatch"
+  | _ => "bad-op"
+
+/-- `kk <parts> <n> <weights…> [m=]` -/
+def handleKk (rest : List String) : String :=
+  match rest with
+  | parts :: n :: rest =>
+    match (do
+      let parts ← parseNat? parts
+      let n ← parseNat? n
+      let (ws, rest) ← takeParsed parseInt? n rest
+      let m ← takeM n rest
+      pure (parts, n, ws, m)) with
+    | none => "bad-op"
+    | some (parts, n, ws, m) =>
+      if m = n && (!weightsInContract ws || parts = 0) then "skip outside-contract"
+      else
+        match Coupe.Kk.run (fresh m) ws parts with
+        | .ok ids => verdictOfIds n parts ids
+        | .lenMismatch => if m ≠ n then "rejected lenmismatch" else "err lenmismatch"
+        | .abort => "panic"
+  | _ => "bad-op"
+
+/-- `ckk <tol bits> <n> <weights…> [m=]` -/
+def handleCkk (rest : List String) : String :=
+  match rest with
+  | tol :: n :: rest =>
+    match (do
+      let tol ← parseHex? tol
+      let n ← parseNat? n
+      let (ws, rest) ← takeParsed parseInt? n rest
+      let m ← takeM n rest
+      pure (tol, n, ws, m)) with
+    | none => "bad-op"
+    | some (tol, n, ws, m) =>
+      if m ≠ n then "rejected lenmismatch"
+      else
+        let t := Float.ofBits (UInt64.ofNat tol)
+        if !weightsInContract ws || t.isNaN || t.isInf || t < 0.0 then "skip outside-contract"
+        else if ws.isEmpty then "ok"
+        else
+          match C13.convTol ws.sum tol with
+          | none => "panic"
+          | some tolT =>
+            match Coupe.Ckk.run {} (fresh m) ws tolT with
+            | .ok ids => verdictOfIds n 2 ids
+            | .notFound => "notfound"
+            | .lenMismatch => "err lenmismatch"
+            | .abort => "panic"
+  | _ => "bad-op"
+
+def showGridAbort (e : Coupe.GridRcb.Abort) : String := C10.showAbort e
+
+/-- `grid2 <w> <h> <iter> <wt> <weights…>` / `grid3 <w> <h> <d> <iter> <wt> <weights…>` -/
+def handleGrid (dim : Nat) (ts : List Nat) (rest : List String) : String :=
+  match (do
+    let (dims, rest) ← takeParsed parseNat? dim rest
+    match rest with
+    | iter :: tag :: rest =>
+      let iter ← parseNat? iter
+      let n := dims.foldl (· * ·) 1
+      let (ws, rest) ← takeWeights tag n rest
+      if rest.isEmpty && dims.all (· ≥ 1) then pure (dims, iter, tag, n, ws) else none
+    | _ => none) with
+  | none => "bad-op"
+  | some (_, _, _, _, .inexact) => "skip non-integer-weight"
+  | some (dims, iter, tag, n, .ints ws) =>
+    if !weightsInContract ws || iter > 40 then "skip outside-contract"
+    else
+      combine ts fun t =>
+        let r :=
+          match dims with
+          | [w, h] => Coupe.GridRcb.rcb2 {} t (C10.checkedBracket tag) w h ws.toArray n iter
+          | [w, h, d] => Coupe.GridRcb.rcb3 {} t (C10.checkedBracket tag) w h d ws.toArray n iter
+          | _ => .error .divZero
+        match r with
+        | .ok ids => verdictOfIds n (2 ^ iter) ids
+        | .error e => showGridAbort e
+
+/-- `random <parts> <n> <seed>`: the generator is outside the repository; the model is run
+with a lawful stand-in (`Coupe.Random.lcg`), the verdict does not depend on which. -/
+def handleRandom (rest : List String) : String :=
+  match rest.mapM parseNat? with
+  | some [parts, n, seed] =>
+    if parts = 0 then "skip outside-contract"
+    else
+      match Coupe.Random.run Coupe.Random.lcg parts (fresh n) seed with
+      | some ids => verdictOfIds n parts ids
+      | none => "panic cannot sample empty range"
+  | _ => "bad-op"
+
+def handle (toks : List String) : String :=
+  match toks with
+  | algo :: ts :: rest =>
+    match parseTs? ts with
+    | none => "bad-op"
+    | some ts =>
+      match algo with
+      | "rcb2" => handleRcb 2 rest
+      | "rcb3" => handleRcb 3 rest
+      | "greedy" => handleGreedy rest
+      | "kk" => handleKk rest
+      | "ckk" => handleCkk rest
+      | "grid2" => handleGrid 2 ts rest
+      | "grid3" => handleGrid 3 ts rest
+      | "random" => handleRandom rest
+      | "rib2" | "rib3" | "hilbert2" | "hilbert3" | "zcurve2" | "zcurve3" | "mj2" | "mj3" =>
+        "skip model-not-wired " ++ algo
+      | _ => "bad-op"
+  | _ => "bad-op"
 
 end Coupe.Driver.C01
